@@ -109,17 +109,30 @@ func readBody(r io.Reader, st RStep) (data []byte, complete bool, err error) {
 				// error after EOF is not specified (a compressed message
 				// reader reports "closed pipe").
 				if k2 != 0 || e2 == nil {
+					observe("a Read after the end of a message returned %d bytes, error %v", k2, e2)
 					return data, false, errors.New("harness-observed: read after end of message returned data or a nil error")
 				}
 			}
 			return data, true, nil
 		}
 		if e != nil {
+			// A reader that has failed stays failed: reading it again must
+			// neither deliver data nor signal the end of the message (io.EOF),
+			// or a retrying application takes the partial message for complete.
+			for i := 0; i < 2; i++ {
+				var xb [16]byte
+				k2, e2 := r.Read(xb[:])
+				if k2 != 0 || e2 == nil || e2 == io.EOF {
+					observe("a message reader failed with %q after %d bytes; read again it returned %d bytes and error %v - a partial message is reported complete or continues", e, len(data), k2, e2)
+					break
+				}
+			}
 			return data, false, e
 		}
 		if k == 0 && n > 0 {
 			zeroReads++
 			if zeroReads > 100 {
+				observe("a message reader returns (0, nil) forever")
 				return data, false, errors.New("harness-observed: reader returns (0, nil) forever")
 			}
 		}
